@@ -4,7 +4,8 @@
  * command).  It decides nothing.
  *
  *   busoom <config file>          script on stdin, one command per line:
- *     <client> <k> req <name> <flags> | rel <name> | addmatch <rule hex> | rmmatch <rule hex> | hello
+ *     <client> <k> req <name> <flags> | rel <name>      (any kind with '!' appended: the call carries NO_REPLY_EXPECTED)
+ *                   | addmatch <rule hex> | rmmatch <rule hex> | hello
  *                  | sig <iface> <member> <arg0 hex>  | call <dest> <member>  | list <name>
  *        k = -1: no fault;  k >= 0: the (k+1)-th allocation made while the bus handles this command fails
  *     dump                        internal state of the bus (registry queues, rule counts, owned-service counts)
@@ -213,7 +214,7 @@ int main (int argc, char **argv)
     {
       char *c_s, *k_s, *kind, *a1, *a2, *a3;
       char op[8192];
-      int c, k, counted = -1;
+      int c, k, counted = -1, noreply = 0;
       DBusMessage *m = NULL;
       dbus_uint32_t ser = 0;
       size_t l = strlen (line);
@@ -223,6 +224,7 @@ int main (int argc, char **argv)
       c_s = strtok (line, " "); k_s = strtok (NULL, " "); kind = strtok (NULL, " ");
       a1 = strtok (NULL, " "); a2 = strtok (NULL, " "); a3 = strtok (NULL, " ");
       c = atoi (c_s); k = atoi (k_s);
+      { size_t kl = strlen (kind); noreply = kl > 1 && kind[kl - 1] == '!'; if (noreply) kind[kl - 1] = 0; }   /* "req!": NO_REPLY_EXPECTED */
       if (!strcmp (kind, "hello"))
         {
           m = dbus_message_new_method_call (DBUS_SERVICE_DBUS, DBUS_PATH_DBUS, DBUS_INTERFACE_DBUS, "Hello");
@@ -254,6 +256,7 @@ int main (int argc, char **argv)
           emit_round (c, "{\"k\":\"aclose\",\"waseof\":false,\"oom\":false}");
           continue; }
       else continue;
+      if (noreply) dbus_message_set_no_reply (m, TRUE);
       if (!dbus_connection_send (cl[c], m, &ser)) abort ();
       if (!strcmp (kind, "call")) lastcall[c] = ser;
       /* the request reaches the bus with injection off ... */
